@@ -192,25 +192,6 @@ Proof.
     + split; [exact Hv|]. intros Hb. congruence.
 Qed.
 
-Lemma collect_sync_den keys ds :
-  length ds = length keys ->
-  den (collect_sync keys ds) =
-  (option_map (fun vs => VObj (combine keys vs)) (fst (den_list ds)), snd (den_list ds)).
-Proof.
-  intros Hl. unfold collect_sync. destruct (all_vals ds) as [vs|] eqn:E.
-  - rewrite (all_vals_den _ _ E). reflexivity.
-  - rewrite den_bind, den_gather. destruct (den_list ds) as [r es]. cbn [fst snd].
-    destruct r as [vs|]; simpl; [rewrite app_nil_r|]; reflexivity.
-Qed.
-
-Lemma gather_sync_den ds :
-  den (gather_sync ds) = (option_map VList (fst (den_list ds)), snd (den_list ds)).
-Proof.
-  unfold gather_sync. destruct (all_vals ds) as [vs|] eqn:E.
-  - rewrite (all_vals_den _ _ E). reflexivity.
-  - rewrite den_gather. destruct (den_list ds) as [r es]. reflexivity.
-Qed.
-
 Fixpoint flds_length (fs : flds) : nat := match fs with FNil => 0 | FCons _ r => S (flds_length r) end.
 Fixpoint items_length (its : items) : nat := match its with INil => 0 | ICons _ r => S (items_length r) end.
 Lemma keys_of_length fs : length (keys_of fs) = flds_length fs.
@@ -239,36 +220,130 @@ Proof.
     rewrite <- app_assoc. apply Permutation_app_head. exact Hperm.
 Qed.
 
+(* preservation relation for steps on terms *)
+Definition pres (r : D * mstate) (st : mstate) (b : option val * list entry) : Prop :=
+  exists new, log (snd r) = log st ++ new /\ fst (den (fst r)) = fst b /\
+    (fst b <> None -> Permutation (new ++ snd (den (fst r))) (snd b) /\ orphans (snd r) = orphans st).
+
+Lemma first_exn_den ds x : first_exn ds = Some x -> fst (den_list ds) = None.
+Proof.
+  induction ds as [|d ds IH]; intros H; simpl in H; [discriminate|].
+  cbn [den_list]. destruct (den d) as [xd e1] eqn:Ed. destruct (den_list ds) as [y e2]. cbn [fst] in *.
+  destruct d; try (rewrite (IH H); destruct xd; reflexivity).
+  simpl in Ed. inversion Ed. reflexivity.
+Qed.
+
+Lemma gather_norm_pres ds st : pres (gather_norm ds st) st (den (Gather ds)).
+Proof.
+  unfold gather_norm. rewrite den_gather.
+  destruct (first_exn ds) as [x|] eqn:Ex.
+  - exists []. cbn [fst snd]. rewrite log_add_orphans, app_nil_r. split; [reflexivity|].
+    rewrite (surjective_pairing (den_list ds)). rewrite (first_exn_den ds x Ex). cbn.
+    split; [reflexivity|]. intros Hc. contradiction.
+  - destruct (all_vals ds) as [vs|] eqn:Ev.
+    + exists []. cbn [fst snd]. rewrite app_nil_r. split; [reflexivity|].
+      rewrite (all_vals_den ds vs Ev). cbn. repeat split. apply Permutation_refl.
+    + exists []. cbn [fst snd]. rewrite app_nil_r. split; [reflexivity|].
+      rewrite den_gather. split; [reflexivity|]. intros _. split; [apply Permutation_refl|reflexivity].
+Qed.
+
+
+Lemma gather_sync_pres ds st :
+  pres (gather_sync ds st) st (option_map VList (fst (den_list ds)), snd (den_list ds)).
+Proof.
+  pose proof (gather_norm_pres ds st) as H. rewrite den_gather in H.
+  destruct (den_list ds) as [r es]. exact H.
+Qed.
+
+Lemma collect_sync_pres keys ds st :
+  pres (collect_sync keys ds st) st
+       (option_map (fun vs => VObj (combine keys vs)) (fst (den_list ds)), snd (den_list ds)).
+Proof.
+  unfold collect_sync. pose proof (gather_sync_pres ds st) as H. unfold gather_sync in H.
+  destruct (gather_norm ds st) as [g st1]. destruct H as (new & Hlog & Hv & Hp). cbn [fst snd] in *.
+  destruct (den_list ds) as [r es]. cbn [fst snd] in *.
+  assert (Hdef : pres (Bind g (KCollect keys), st1) st
+                      (option_map (fun vs => VObj (combine keys vs)) r, es)).
+  { exists new. split; [exact Hlog|]. cbn [fst snd]. rewrite den_bind.
+    destruct (den g) as [rg eg]. cbn [fst snd] in *. subst rg.
+    destruct r as [vs|]; cbn [option_map den_k list_of fst snd].
+    - split; [reflexivity|]. intros _. rewrite app_nil_r. apply Hp. discriminate.
+    - split; [reflexivity|]. intros Hc. contradiction. }
+  destruct g as [v|x| | |]; exact Hdef.
+Qed.
+
 Lemma fields_to_s keys r st b :
   sound_f (fun vs => combine keys vs) r st b (length keys) ->
   sound_s (match r with
-           | (FOk ds, st1) => (SOk (collect_sync keys ds), st1)
+           | (FOk ds, st1) => let '(d, st2) := collect_sync keys ds st1 in (SOk d, st2)
            | (FRaise x, st1) => (SRaise x, st1)
            end) st (option_map VObj (fst b), snd b).
 Proof.
   intros (new & Hlog & H). destruct r as [[ds|x] st1]; cbn [fst snd] in *.
-  - destruct H as (Hlen & Hv & Hp). exists new. split; [exact Hlog|]. cbn [fst snd].
-    rewrite (collect_sync_den keys ds Hlen). cbn [fst snd]. split.
-    + rewrite <- Hv. destruct (fst (den_list ds)); reflexivity.
-    + intros Hb. apply Hp. intros Hc. apply Hb. rewrite Hc. reflexivity.
+  - destruct H as (Hlen & Hv & Hp).
+    pose proof (collect_sync_pres keys ds st1) as Hc.
+    destruct (collect_sync keys ds st1) as [d st2]. destruct Hc as (new2 & Hlog2 & Hv2 & Hp2).
+    cbn [fst snd] in *. exists (new ++ new2). split; [cbn [fst snd]; rewrite Hlog2, Hlog, app_assoc; reflexivity|]. cbn [fst snd].
+    split.
+    + rewrite Hv2, <- Hv. destruct (fst (den_list ds)); reflexivity.
+    + intros Hb. assert (Hb1 : fst b <> None) by (intros Hc; apply Hb; rewrite Hc; reflexivity).
+      destruct (Hp Hb1) as [Pm1 Ho1].
+      assert (Hb2 : option_map (fun vs => VObj (combine keys vs)) (fst (den_list ds)) <> None).
+      { intros Hc. apply Hb1. rewrite <- Hv. destruct (fst (den_list ds)); [discriminate|reflexivity]. }
+      destruct (Hp2 Hb2) as [Pm2 Ho2]. split; [|congruence].
+      rewrite <- app_assoc. rewrite (Permutation_app_head new Pm2). exact Pm1.
   - exists new. split; [exact Hlog|]. cbn [fst snd]. rewrite H. reflexivity.
 Qed.
 
 Lemma items_to_s r st b n :
   sound_f (fun vs => vs) r st b n ->
   sound_s (match r with
-           | (FOk ds, st1) => (SOk (gather_sync ds), st1)
+           | (FOk ds, st1) => let '(d, st2) := gather_sync ds st1 in (SOk d, st2)
            | (FRaise x, st1) => (SRaise x, st1)
            end) st (option_map VList (fst b), snd b).
 Proof.
   intros (new & Hlog & H). destruct r as [[ds|x] st1]; cbn [fst snd] in *.
-  - destruct H as (Hlen & Hv & Hp). exists new. split; [exact Hlog|]. cbn [fst snd].
-    rewrite (gather_sync_den ds). cbn [fst snd]. split.
-    + rewrite <- Hv. destruct (fst (den_list ds)); reflexivity.
-    + intros Hb. apply Hp. intros Hc. apply Hb. rewrite Hc. reflexivity.
+  - destruct H as (Hlen & Hv & Hp).
+    pose proof (gather_sync_pres ds st1) as Hc.
+    destruct (gather_sync ds st1) as [d st2]. destruct Hc as (new2 & Hlog2 & Hv2 & Hp2).
+    cbn [fst snd] in *. exists (new ++ new2). split; [cbn [fst snd]; rewrite Hlog2, Hlog, app_assoc; reflexivity|]. cbn [fst snd].
+    split.
+    + rewrite Hv2, <- Hv. destruct (fst (den_list ds)); reflexivity.
+    + intros Hb. assert (Hb1 : fst b <> None) by (intros Hc; apply Hb; rewrite Hc; reflexivity).
+      destruct (Hp Hb1) as [Pm1 Ho1].
+      assert (Hb2 : option_map VList (fst (den_list ds)) <> None).
+      { intros Hc. apply Hb1. rewrite <- Hv. destruct (fst (den_list ds)); [discriminate|reflexivity]. }
+      destruct (Hp2 Hb2) as [Pm2 Ho2]. split; [|congruence].
+      rewrite <- app_assoc. rewrite (Permutation_app_head new Pm2). exact Pm1.
   - exists new. split; [exact Hlog|]. cbn [fst snd]. rewrite H. reflexivity.
 Qed.
 
+Lemma capture_sound r st b : sound_s r st b -> sound_s (capture r) st b.
+Proof.
+  intros (new & Hlog & H). destruct r as [[d|x] st']; [exists new; auto|].
+  exists new. split; [exact Hlog|]. cbn [fst snd capture den] in *. split; [symmetry; exact H|].
+  intros Hb. contradiction.
+Qed.
+
+Lemma run_eager_log : forall e t more st,
+  exists new, log (snd (run_eager t more e st)) = log st ++ new /\
+    orphans (snd (run_eager t more e st)) = orphans st /\
+    match fst (run_eager t more e st) with
+    | Some (t', m) => new ++ task_log t' m = LInvoke t :: task_log t more
+    | None => new = LInvoke t :: task_log t more
+    end.
+Proof.
+  induction e as [|e IH]; intros t more st; cbn [run_eager].
+  - exists [LInvoke t]. cbn. repeat split.
+  - destruct more as [|m].
+    + exists [LInvoke t; LFinish t]. cbn. rewrite <- app_assoc. repeat split.
+    + destruct (IH (next_tid t) m (emit (LFinish t) (emit (LInvoke t) st))) as (new & Hl & Ho & Hm).
+      exists ([LInvoke t; LFinish t] ++ new). split; [|split; [exact Ho|]].
+      * rewrite Hl. cbn. rewrite <- !app_assoc. reflexivity.
+      * destruct (fst (run_eager (next_tid t) m e _)) as [[t' m']|].
+        -- rewrite <- app_assoc, Hm. reflexivity.
+        -- rewrite Hm. reflexivity.
+Qed.
 (* one more element in front of a field / item loop *)
 Lemma sound_f_cons {A} (wrap : list val -> A) (wrap' : list val -> A) (pair : val -> A -> A)
       r1 st1 st b1 (rest : mstate -> fres * mstate) b2 n :
@@ -322,10 +397,14 @@ Proof.
   - (* Fld *)
     intros k dfr nn b IH p st. cbn [resolve_field bs_field].
     destruct (bs_complete nn b (p ++ [k])) as [r es] eqn:Eb.
-    destruct dfr as [n|].
-    + exists [LInvoke (p ++ [k], O)]. split; [reflexivity|]. cbn [fst snd].
-      rewrite den_bind. cbn [den den_k]. rewrite Eb. cbn [fst snd]. split; [reflexivity|].
-      intros _. split; [apply Permutation_refl|reflexivity].
+    destruct dfr as [[n e]|].
+    + destruct (run_eager_log e (p ++ [k], O) n st) as (new & Hl & Ho & Hm).
+      destruct (run_eager (p ++ [k], O) n e st) as [[[t m]|] st1]; cbn [fst snd] in *.
+      * exists new. split; [exact Hl|]. cbn [fst snd]. rewrite den_bind. cbn [den den_k]. rewrite Eb.
+        cbn [fst snd]. split; [reflexivity|]. intros _. split; [|exact Ho].
+        rewrite app_assoc, Hm. apply Permutation_refl.
+      * apply capture_sound. specialize (IH nn (p ++ [k]) st1). rewrite Eb in IH.
+        apply (sound_s_prefix _ _ st _ new) in IH; [|exact Hl|exact Ho]. subst new. exact IH.
     + specialize (IH nn (p ++ [k]) (emit (LFinish (p ++ [k], O)) (emit (LInvoke (p ++ [k], O)) st))).
       rewrite Eb in IH.
       apply (sound_s_prefix _ _ st _ [LInvoke (p ++ [k], O); LFinish (p ++ [k], O)]) in IH;
@@ -422,7 +501,8 @@ Proof.
           split; [reflexivity|]. intros Hy. destruct (Hp1 ltac:(discriminate)) as [Pm Ho].
           split; [|exact Ho]. rewrite app_assoc. apply Permutation_app_tail. exact Pm.
         - cbn [fst snd]. split; [reflexivity|]. intros Hc. contradiction. }
-      destruct d as [v| | | |]; try (apply Hdef; [reflexivity|discriminate]).
+      destruct d as [v|x0| | |]; try (apply Hdef; [reflexivity|discriminate]);
+        [|exact (Hdef (Exn x0) eq_refl ltac:(discriminate))].
       (* plain value: the loop goes on *)
       cbn [den fst snd] in Hv1. subst x.
       specialize (IH (acc ++ [(key_of f, v)]) st1).
@@ -436,11 +516,6 @@ Proof.
       split; [|congruence]. rewrite <- app_assoc. apply Permutation_app; assumption.
     + exists new1. split; [exact Hlog1|]. cbn [fst snd]. rewrite H1. reflexivity.
 Qed.
-
-(* preservation relation for steps on terms *)
-Definition pres (r : D * mstate) (st : mstate) (b : option val * list entry) : Prop :=
-  exists new, log (snd r) = log st ++ new /\ fst (den (fst r)) = fst b /\
-    (fst b <> None -> Permutation (new ++ snd (den (fst r))) (snd b) /\ orphans (snd r) = orphans st).
 
 Lemma lift_pres r st b : sound_s r st b -> pres (lift r) st b.
 Proof.
@@ -460,28 +535,6 @@ Proof.
     + exists []. cbn. rewrite app_nil_r. repeat split. apply Permutation_refl.
   - apply lift_pres. apply serial_next_sound.
   - exists []. cbn. rewrite app_nil_r. repeat split. apply Permutation_refl.
-Qed.
-
-Lemma first_exn_den ds x : first_exn ds = Some x -> fst (den_list ds) = None.
-Proof.
-  induction ds as [|d ds IH]; intros H; simpl in H; [discriminate|].
-  cbn [den_list]. destruct (den d) as [xd e1] eqn:Ed. destruct (den_list ds) as [y e2]. cbn [fst] in *.
-  destruct d; try (rewrite (IH H); destruct xd; reflexivity).
-  simpl in Ed. inversion Ed. reflexivity.
-Qed.
-
-Lemma gather_norm_pres ds st : pres (gather_norm ds st) st (den (Gather ds)).
-Proof.
-  unfold gather_norm. rewrite den_gather.
-  destruct (first_exn ds) as [x|] eqn:Ex.
-  - exists []. cbn [fst snd]. rewrite log_add_orphans, app_nil_r. split; [reflexivity|].
-    rewrite (surjective_pairing (den_list ds)). rewrite (first_exn_den ds x Ex). cbn.
-    split; [reflexivity|]. intros Hc. contradiction.
-  - destruct (all_vals ds) as [vs|] eqn:Ev.
-    + exists []. cbn [fst snd]. rewrite app_nil_r. split; [reflexivity|].
-      rewrite (all_vals_den ds vs Ev). cbn. repeat split. apply Permutation_refl.
-    + exists []. cbn [fst snd]. rewrite app_nil_r. split; [reflexivity|].
-      rewrite den_gather. split; [reflexivity|]. intros _. split; [apply Permutation_refl|reflexivity].
 Qed.
 
 Lemma fire_gather t ds st :
@@ -621,6 +674,7 @@ Lemma finish_pres r st b :
   sound_s r st b ->
   pres (let s := match r with
                  | (SOk (Val v), st') => MkState (Val v) st'
+                 | (SOk (Exn x), st') => MkState (Exn x) st'
                  | (SOk d, st') => MkState (Bind d KFinish) st'
                  | (SRaise x, st') => MkState (Exn x) st'
                  end in (term s, ms s)) st b.
